@@ -28,6 +28,7 @@ type FD struct {
 	stackFD  int
 	mu       sync.Mutex
 	Closed   chan *tcpip.Error // receives when the endpoint's dispatch loop ends
+	ended    chan struct{}     // closed when the dispatch loop has ended
 	EthTrace []EthFrame
 }
 
@@ -44,14 +45,21 @@ func NewFD(mtu uint32, addrs4, addrs6 []tcpip.Address, routes []tcpip.Route) (*F
 	if err != nil {
 		return nil, err
 	}
-	f := &FD{fd: fds[1], stackFD: fds[0], StackMAC: []byte{2, 0, 0, 0, 0, 1}, PeerMAC: []byte{2, 0, 0, 0, 0, 2}, Closed: make(chan *tcpip.Error, 1)}
+	f := &FD{fd: fds[1], stackFD: fds[0], StackMAC: []byte{2, 0, 0, 0, 0, 1}, PeerMAC: []byte{2, 0, 0, 0, 0, 2}, Closed: make(chan *tcpip.Error, 1), ended: make(chan struct{})}
 	syscall.SetNonblock(f.fd, true)
+	// the endpoint's readv loop (rawfile.BlockingReadv) is written for a non-blocking
+	// descriptor, as every user of fdbased.New sets it up: on a blocking one the
+	// dispatch goroutine sits in a raw system call and holds its P, which stalls a
+	// stop-the-world of the Go runtime
+	syscall.SetNonblock(fds[0], true)
+	var once sync.Once
 	id := fdbased.New(&fdbased.Options{FD: fds[0], MTU: mtu, Address: tcpip.LinkAddress(f.StackMAC), ResolutionRequired: true,
 		CloseFunc: func(e *tcpip.Error) {
 			select {
 			case f.Closed <- e:
 			default:
 			}
+			once.Do(func() { close(f.ended) })
 		}})
 	s := stack.New([]string{ipv4.ProtocolName, ipv6.ProtocolName, arp.ProtocolName}, []string{tcp.ProtocolName, udp.ProtocolName}, stack.Options{})
 	if e := s.CreateNIC(1, id); e != nil {
@@ -132,8 +140,15 @@ func (f *FD) ReadMatch(d time.Duration, pred func(EthFrame) bool) (EthFrame, boo
 	}
 }
 
-// Close closes both ends (the dispatch loop ends with an error).
+// Close closes the harness end, waits for the dispatch loop to end (it reads
+// end-of-file) and only then closes the stack's end, so that the descriptor
+// number is not reused under a loop that still reads from it.
 func (f *FD) Close() {
 	syscall.Close(f.fd)
+	select {
+	case <-f.ended:
+	case <-time.After(2 * time.Second):
+	}
 	syscall.Close(f.stackFD)
+	ReleaseStack(f.Stack)
 }
